@@ -192,6 +192,48 @@ def run(tier, seed):
                         bad(f"{cn}.update_from_nplike", dest_dtype=dt, source_dtype=str(sdt), layout=lname, offset=o, problem=prob)
                     elif len(samples) < 3 and lname == "F2d" and dt != sdt:
                         samples.append({"class": cn, "primitive": "update_from_nplike", "dest_dtype": dt, "source_dtype": str(sdt), "layout": lname, "offset": o})
+    # ---- large transfers: sizes around the integer constants that occur in the buffer modules' source (block sizes, thresholds) and around
+    # powers of two -- the small-scope enumeration above cannot reach a size-dependent code path
+    sizes = sorted(boundary_sizes(tier))
+    for cls in classes:
+        cn = cls.__name__
+        for scls in classes:
+            for sctx in (ctx, ctx2):
+                if sctx is ctx and scls is not cls:
+                    continue
+                for n in sizes:
+                    o, so = 24, 40
+                    cap, scap = o + n + 4096 + 2 * max(sizes) // 1, so + n + 4096 + 2 * max(sizes)
+                    b = cls(capacity=cap, context=ctx)
+                    b.buffer[:] = np.frombuffer(bytes([0xAB]) * cap, dtype="int8") if cn == "BufferNumpy" else bytes([0xAB]) * cap
+                    before = buf_bytes(b)
+                    pat = (np.arange(scap, dtype="int64") * 7 % 251).astype("uint8").tobytes()
+                    sb = scls(capacity=scap, context=sctx)
+                    sb.update_from_buffer(0, pat)
+                    try:
+                        b.update_from_xbuffer(o, sb, so, n)
+                        got = buf_bytes(b)
+                        okx = got == before[:o] + pat[so:so + n] + before[o + n:] and buf_bytes(sb) == pat and len(got) == cap
+                    except Exception as e:  # noqa
+                        okx = f"{type(e).__name__}: {e}"
+                    evals += 1
+                    distinct.add(("ufx-large", cn, scls.__name__, sctx is ctx, n))
+                    if okx is not True:
+                        bad(f"{cn}.update_from_xbuffer:large", nbytes=n, offset=o, source_offset=so, source_class=scls.__name__, same_context=sctx is ctx,
+                            problem=str(okx) if okx is not False else "bytes outside the requested range changed, or the range holds other bytes")
+        for n in sizes:
+            # the other primitives at the same sizes
+            cap = n + 64
+            b = cls(capacity=cap, context=ctx)
+            pat = (np.arange(cap, dtype="int64") * 5 % 253).astype("uint8").tobytes()
+            b.update_from_buffer(0, pat)
+            evals += 3
+            distinct.add(("large", cn, n))
+            if bytes(bytearray(b.to_bytearray(8, n))) != pat[8:8 + n] or bytes(bytearray(b.to_native(8, n))) != pat[8:8 + n]:
+                bad(f"{cn}.to_bytearray/to_native:large", nbytes=n)
+            b.update_from_native(16, b.to_native(8, n), 0, n)
+            if buf_bytes(b) != pat[:16] + pat[8:8 + n] + pat[16 + n:]:
+                bad(f"{cn}.update_from_native:large", nbytes=n)
     return {
         "evaluations": evals, "distinct_nontrivial": len(distinct),
         "rule": f"exhaustive: both buffer classes x capacity 0..{CAP} x every (offset,len) x update_from_buffer(4 source kinds)/to_native/"
@@ -201,6 +243,34 @@ def run(tier, seed):
                 "{C1d,C2d,F2d,strided,transposed 3-D,empty,list}; distinct by (primitive, class, capacity, offset, len, ...)",
         "exhaustive": True, "violations": _by_key(violations), "samples": samples,
     }
+
+
+def boundary_sizes(tier):
+    """transfer sizes worth trying beyond the small scope: c-1, c, c+1 and 2c+1 for every integer constant c >= 256 found in the source of the
+    buffer modules (literals and constant shifts / products / powers of literals), and around 2^12, 2^16, 2^17 (2^20 thorough); capped at 2^22"""
+    import ast
+    import os
+    from pyvc import source as src
+
+    consts = {4096, 65536, 131072} | ({1 << 20} if tier != "quick" else set())
+    for rel in ("xobjects/context.py", "xobjects/context_cpu.py"):
+        try:
+            tree = ast.parse(open(os.path.join(src.REPO, rel)).read())
+        except OSError:
+            continue
+        for node in ast.walk(tree):
+            try:
+                v = ast.literal_eval(node) if isinstance(node, ast.Constant) else (
+                    eval(compile(ast.Expression(node), "<const>", "eval"), {"__builtins__": {}}) if isinstance(node, ast.BinOp) and all(
+                        isinstance(x, (ast.Constant, ast.BinOp, ast.operator)) for x in ast.walk(node) if not isinstance(x, (ast.Load,))) else None)
+            except Exception:  # noqa
+                v = None
+            if isinstance(v, int) and not isinstance(v, bool) and 256 <= v <= (1 << 22):
+                consts.add(v)
+    out = set()
+    for c in consts:
+        out |= {c - 1, c, c + 1, 2 * c + 1}
+    return {n for n in out if 0 < n <= (1 << 22) + 1}
 
 
 def _by_key(violations, cap=12):
